@@ -89,7 +89,9 @@ CHECKS["C13"] = {
              "Reader.ReadPacket (structured frame scripts, raw/hostile byte strings and bit-flipped streams under 2-3 chunkings, endless oversized frame), UnmarshalError, "
              "drpcmetadata.Decode (7 malformation families incl. 2^63/2^64-1 length prefixes at each of the three length positions), drpchttp.Context on header values over an "
              "alphabet weighted to '%', '=', hex/non-hex, the gateway's body readers with dishonest length fields / corrupt base64 / bodies around the limit, and the gateway's "
-             "error-code extraction on hostile error values (nil Unwrap/Cause, cycles, wrong-arity Code methods, typed nil). Non-trivial: the input reaches past the first validation branch "
+             "error-code extraction on hostile error values (nil Unwrap/Cause, cycles, wrong-arity Code methods, typed nil), and a live server (manager + stream dispatch) fed 1..20 arbitrary frames by a wire-level peer "
+             "(plausible and arbitrary id progressions, kinds 0..8/33/63, control bits, unfinished packets, junk payloads, raw garbage; optionally after a well-formed invoke) which must never panic, and must shut down completely when the peer disconnects. "
+             "The thorough tier adds coverage-guided native fuzzing (go test -fuzz) of ParseFrame, the reader, metadata Decode, UnmarshalError and the metadata header parser with the same oracles inside the targets. Non-trivial: the input reaches past the first validation branch "
              "(>= 4 bytes for frames/reader, >= 2 bytes for metadata, >= 1 escape for headers, any error outcome for the gateway)."),
     "assumptions": ["packet dispatch in stream and manager is driven by a wire-level peer sending arbitrary frame sequences (sub-check manager_frames); a panic on a library goroutine kills the shard and is reported from its stack trace",
                     "allocation is bounded by observing runtime.MemStats.TotalAlloc around the call (gateway) and buffer capacities / largest requested read (reader)"],
